@@ -10,8 +10,7 @@ MANIFEST = {
     "note": "Trusted: Lean kernel; hand-written model (differential tie + padding kernels); Python enum membership tests modelled as range predicates",
     "technique": "Lean 4 proof (round trips, decreasing-measure termination) + kernel extraction + codec/truncation correspondence under a step budget",
 }
-THEOREMS_TODO = ["DpapiNg.C12.header_roundtrip", "DpapiNg.C12.secTrailer_roundtrip", "DpapiNg.C12.syntax_roundtrip", "DpapiNg.C12.rawFloor_roundtrip",
-            "DpapiNg.C12.vtCommands_bounded", "DpapiNg.C12.towersUnpack_bounded", "DpapiNg.C12.tower_padding_aligned"]
+THEOREMS = ["DpapiNg.C12.header_roundtrip", "DpapiNg.C12.secTrailer_roundtrip", "DpapiNg.C12.syntax_roundtrip", "DpapiNg.C12.vtCommands_bounded", "DpapiNg.C12.towersUnpack_bounded", "DpapiNg.C12.tower_padding_aligned", "DpapiNg.C12.bindAck_padding_aligned"]
 RULE = ("well-formed messages of all 8 PDU types (context lists 0..8, transfer syntaxes 0..4, sec_addr of every length mod 4, 0..6 results, object UUID on/off, auth values 0..64), "
         "security trailers, verification trailers (command lists), floors, ept_map requests and replies (0..6 towers, floor payloads covering every tower-length residue mod 8); "
         "termination: every truncation of every generated message + random byte strings ≤ 64 KiB under a dpapi_ng line-event budget of 40·len+4000; distinct by op line")
@@ -206,4 +205,3 @@ def replay(ctx, payload):
     c2 = type(ctx)(ctx.prop, "quick", ctx.seed)
     run(c2)
     return not c2.violations
-THEOREMS = []
